@@ -431,6 +431,12 @@ func Gen(prop, tier string, seed uint64) *kernel.Plan {
 // application registers, the order of the packs in requests and answers.
 func vary(prop string, g *kernel.Rng, cfg *Config, evs []Ev) {
 	cfg.PackOrder = prop == "C12" || g.Chance(1, 2)
+	if cfg.Colls > 1 && g.Chance(1, 2) {
+		// collection names that differ only in a separator or in case (whatever is derived from a
+		// name - the name of the per-collection MongoDB collection, topics, lock names - has to keep
+		// them apart)
+		cfg.CollNames = [][]string{{"shop.eu", "shop_eu", "shop-eu"}, {"Orders", "orders", "ORDERS"}, {"a.b", "a_b", "a-b"}}[g.Intn(3)][:cfg.Colls]
+	}
 	// handlers: bit 1 = no state-change handler, 2 = no remote-operation handler, 4 = no error handler
 	hv := g.Chance(1, 5) || (prop == "C13" && g.Chance(1, 3))
 	style := g.Intn(4) // 0,1: the plain names; 2: document-<n>; 3: arbitrary
